@@ -1,0 +1,44 @@
+//go:build verif
+
+package fri
+
+import (
+	"github.com/consensys/gnark/frontend"
+	gl "github.com/wormhole-foundation/example-near-light-client/goldilocks"
+	"github.com/wormhole-foundation/example-near-light-client/types"
+	"github.com/wormhole-foundation/example-near-light-client/variables"
+)
+
+// Test-only export wrappers for the external verification harness (build tag "verif").
+
+func (f *Chip) VerifMerkle(leafData []gl.Variable, leafIndexBits, capIndexBits []frontend.Variable, cap variables.FriMerkleCap, proof *variables.FriMerkleProof) {
+	f.verifyMerkleProofToCapWithCapIndex(leafData, leafIndexBits, capIndexBits, cap, proof)
+}
+
+func (f *Chip) VerifSubgroupX(bits []frontend.Variable, nLog uint64) gl.Variable {
+	return f.calculateSubgroupX(bits, nLog)
+}
+
+func (f *Chip) VerifComputeEvaluation(x gl.Variable, within []frontend.Variable, arityBits uint64, evals []gl.QuadraticExtensionVariable, beta gl.QuadraticExtensionVariable) gl.QuadraticExtensionVariable {
+	return f.computeEvaluation(x, within, arityBits, evals, beta)
+}
+
+func (f *Chip) VerifFinalPolyEval(p variables.PolynomialCoeffs, pt gl.QuadraticExtensionVariable) gl.QuadraticExtensionVariable {
+	return f.finalPolyEval(p, pt)
+}
+
+func (f *Chip) VerifCombineInitial(instance InstanceInfo, proof variables.FriInitialTreeProof, alpha, x gl.QuadraticExtensionVariable, pre []gl.QuadraticExtensionVariable) gl.QuadraticExtensionVariable {
+	return f.friCombineInitial(instance, proof, alpha, x, pre)
+}
+
+func (f *Chip) VerifFromOpeningsAndAlpha(o *Openings, alpha gl.QuadraticExtensionVariable) []gl.QuadraticExtensionVariable {
+	return f.fromOpeningsAndAlpha(o, alpha)
+}
+
+func (f *Chip) VerifLeadingZeros(x gl.Variable, cfg types.FriConfig) {
+	f.assertLeadingZeros(x, cfg)
+}
+
+func (f *Chip) VerifQueryRound(instance InstanceInfo, challenges *variables.FriChallenges, pre []gl.QuadraticExtensionVariable, caps []variables.FriMerkleCap, proof *variables.FriProof, xIndex gl.Variable, n, nLog uint64, round *variables.FriQueryRound) {
+	f.verifyQueryRound(instance, challenges, pre, caps, proof, xIndex, n, nLog, round)
+}
